@@ -31,7 +31,8 @@ import (
 // C04: names that are not valid FS paths are rejected everywhere and change nothing.
 
 var c04invalidBase = []string{"", "/", "/x", "x/", "a//b", "./a", "a/.", "..", ".", "a/../b", "a/./b", "../x", "\xff", "a/\xff\xfe", "d/", "d//x", "d/./x", "d/../f", "d/x/", "d/..", "./f", "f/", "/f", "/d/x",
-	"m/", "m//x", "m/../f", "m/.", "m/x/", "m/./x", "m/\xff", "d/m2/", "d/m2//y", "d/m2/../x"}
+	"m/", "m//x", "m/../f", "m/.", "m/x/", "m/./x", "m/\xff", "d/m2/", "d/m2//y", "d/m2/../x",
+	"m/m2/", "m/m2//y", "m/m2/../f", "m/m2/.", "m/m2/y/", "m2/", "m2//x", "m2/../x", "m2/."}
 
 // "." is valid; keep it out
 func c04invalid(env *core.Env) []string {
@@ -82,7 +83,7 @@ func c04shape(s string) string {
 		}
 	}
 	switch {
-	case strings.HasPrefix(s, "m/") || strings.HasPrefix(s, "d/m2/"):
+	case strings.HasPrefix(s, "m/") || strings.HasPrefix(s, "d/m2/") || strings.HasPrefix(s, "m2/"):
 		sh += ",below-mountpoint"
 	case strings.HasPrefix(s, "d/") || strings.HasPrefix(s, "f/"):
 		sh += ",below-existing"
@@ -93,7 +94,7 @@ func c04shape(s string) string {
 var c04ops = []string{"Open", "OpenFile", "Create", "Mkdir", "MkdirAll", "Remove", "RemoveAll", "Stat", "Lstat", "LstatOrStat", "Chmod", "Chown", "Chtimes", "ReadDir", "ReadFile", "WriteFullFile", "Sub",
 	"Rename:1", "Rename:2", "Rename:both", "Symlink:1", "Symlink:2", "Symlink:both"}
 
-var c04subjects = []string{"mem", "kvplain", "mount", "sub", "sub-os", "cache", "tar", "os", "tar-broken"}
+var c04subjects = []string{"mem", "kvplain", "mount", "sub", "sub-os", "cache", "tar", "os", "tar-broken", "mount-nested", "sub-mount"}
 
 // c04parts are the constituent file systems whose state must not change.
 type c04subject struct {
@@ -111,7 +112,33 @@ func newC04Subject(env *core.Env, name string, populatedState bool) (*c04subject
 	}
 	s := &c04subject{parts: map[string]hackpadfs.FS{}, cleanup: func() {}}
 	switch name {
-	case "mount":
+	case "mount-nested":
+		// a mount.FS mounted inside a mount.FS: m -> inner mount FS, whose m2 is again a mount point
+		root, _ := mem.NewFS()
+		mf, _ := mount.NewFS(root)
+		if err := buildTree(mf, items); err != nil {
+			return nil, err
+		}
+		innerRoot, _ := mem.NewFS()
+		_ = hackpadfs.Mkdir(innerRoot, "m2", 0o755)
+		_ = hackpadfs.WriteFullFile(innerRoot, "f", []byte("inner-f"), 0o644)
+		inner, _ := mount.NewFS(innerRoot)
+		innerM2, _ := mem.NewFS()
+		_ = hackpadfs.WriteFullFile(innerM2, "y", []byte("inner-m2-y"), 0o644)
+		if err := inner.AddMount("m2", innerM2); err != nil {
+			return nil, err
+		}
+		if err := mf.AddMount("m", inner); err != nil {
+			return nil, err
+		}
+		m2, _ := mem.NewFS()
+		if err := mf.AddMount("d/m2", m2); err != nil {
+			return nil, err
+		}
+		s.fs = mf
+		s.parts["root"], s.parts["inner-root"], s.parts["inner-m2"], s.parts["d/m2"] = root, innerRoot, innerM2, m2
+		return s, nil
+	case "mount", "sub-mount":
 		root, _ := mem.NewFS()
 		mf, _ := mount.NewFS(root)
 		if err := buildTree(mf, items); err != nil {
@@ -129,6 +156,14 @@ func newC04Subject(env *core.Env, name string, populatedState bool) (*c04subject
 		_ = hackpadfs.WriteFullFile(m2, "x", []byte("in-m2"), 0o644)
 		s.fs = mf
 		s.parts["root"], s.parts["m"], s.parts["d/m2"] = root, m1, m2
+		if name == "sub-mount" {
+			// a view of the directory that holds the mount point m2
+			v, err := hackpadfs.Sub(mf, "d")
+			if err != nil {
+				return nil, err
+			}
+			s.fs = v
+		}
 		return s, nil
 	case "sub":
 		parent, _ := mem.NewFS()
@@ -224,7 +259,7 @@ func newC04Subject(env *core.Env, name string, populatedState bool) (*c04subject
 
 func (s *c04subject) state() string {
 	var sb strings.Builder
-	for _, k := range []string{"self", "root", "m", "d/m2", "parent", "osdir", "source", "store", "dest"} {
+	for _, k := range []string{"self", "root", "m", "d/m2", "inner-root", "inner-m2", "parent", "osdir", "source", "store", "dest"} {
 		if f, ok := s.parts[k]; ok {
 			snap, prob := fsx.Snapshot(f, nil)
 			sb.WriteString(k + "=" + snap.Hash() + prob + ";")
@@ -284,7 +319,7 @@ func init() {
 	core.Register(&core.Prop{
 		ID:    "C04",
 		Level: "exploration",
-		Rule: "every FS method and package helper (17 single-name operations, Rename and Symlink with the invalid name first / second / both) is called on mem, keyvalue over a plain Store, mount (names invalid as a whole and invalid only after a mount point), a generic Sub view, a Sub view of os.FS, the cache, the tar FS and os.FS, in a populated and an (almost) empty state, with an enumerated corpus around the ValidPath boundary plus seeded fuzzed byte strings filtered by !ValidPath: the call must fail matching ErrInvalid and the snapshots of ALL constituent file systems must be unchanged. " +
+		Rule: "every FS method and package helper (17 single-name operations, Rename and Symlink with the invalid name first / second / both) is called on mem, keyvalue over a plain Store, mount (names invalid as a whole and invalid only after a mount point), a generic Sub view, a Sub view of os.FS, the cache, the tar FS (healthy and after a failed unpack), os.FS, a mount.FS mounted inside a mount.FS and a Sub view of a directory holding a mount point, in a populated and an (almost) empty state, with an enumerated corpus around the ValidPath boundary plus seeded fuzzed byte strings filtered by !ValidPath: the call must fail matching ErrInvalid and the snapshots of ALL constituent file systems must be unchanged. " +
 			"Valid names containing backslash, colon, dots are never refused as invalid and are not split into elements. For os.FS the same calls run in a helper process under strace (-e trace=%file) with marker syscalls: no file syscall may occur between the markers of an invalid-name call. Operations a subject does not support at all (ErrNotImplemented for a valid name) are skipped. Non-trivial: all cases; distinct by (subject, state, operation)",
 		Assumptions: []string{"mount.AddMount refusing '.' is configuration, not covered", "names containing NUL or longer than 200 bytes are not generated", "strace sees the helper's locked OS thread; other threads' syscalls (runtime) are ignored"},
 		NumCases:    func(env *core.Env) int { return len(c04cases()) },
